@@ -19,6 +19,7 @@ Definition facts_as_modelled : bool :=
   && src_find_entry_global_needs_not_param
   && src_find_entry_activates_param              (* find_local: EParam -> EActive *)
   && src_push_tracks_frame_index                 (* push *)
+  && src_with_params_pushed_as_param_entries     (* push_params: EParam, never EVar *)
   && src_pop_frame_throws_on_context_marker      (* pop_frame_n *)
   && negb src_params_deactivated_elsewhere       (* resetParams: nowhere (K-C01-1) or only where end_template has it *)
   && src_children_frame_iff_has_variables        (* exec_ins Block/Tmpl: has_decl *)
